@@ -107,12 +107,19 @@ fn c17_wq_two_handles_wake() {
 /// `wakeup()` that starts after `wakeup_handled()` finished must be delivered again. The
 /// wakers also race with h2. Thread exit is signalled by the harness (`done` + notify), so
 /// this scenario checks delivery, not the wake itself (that is c17_wq_two_handles_wake).
-#[test]
-fn c17_wq_rearm() {
-    let scn = Scenario::new("c17_wq_rearm", module_path!(), "c17.wakeup_queue")
-        .cfg("handles", 2u64)
-        .cfg("shape", "h1.wakeup(); observe handled?; h1.wakeup() || h2.wakeup() || endpoint polls until both threads are done");
-    sup::run(scn, || {
+fn rearm(name: &'static str, with_h2: bool, bounds: (usize, usize)) {
+    let scn = Scenario::new(name, module_path!(), "c17.wakeup_queue")
+        .bounds(bounds.0, bounds.1)
+        .cfg("handles", if with_h2 { 2u64 } else { 1u64 })
+        .cfg(
+            "shape",
+            if with_h2 {
+                "h1.wakeup(); observe handled?; h1.wakeup() || h2.wakeup() || endpoint polls until both threads are done"
+            } else {
+                "h1.wakeup(); observe handled?; h1.wakeup() || endpoint polls until the thread is done"
+            },
+        );
+    sup::run(scn, move || {
         static REQUIRED: StdU32 = StdU32::new(0);
         REQUIRED.store(1, StdOrd::Relaxed);
 
@@ -136,11 +143,16 @@ fn c17_wq_rearm() {
             p1.0.notify();
         });
         let (t2, d2, p2) = (h2.clone(), done.clone(), park.clone());
-        let b = loom::thread::spawn(move || {
-            t2.wakeup();
+        let b = if with_h2 {
+            Some(loom::thread::spawn(move || {
+                t2.wakeup();
+                d2.fetch_add(1, Ordering::Release);
+                p2.0.notify();
+            }))
+        } else {
             d2.fetch_add(1, Ordering::Release);
-            p2.0.notify();
-        });
+            None
+        };
 
         let cx = Context::from_waker(&waker);
         let mut swap = VecDeque::new();
@@ -173,9 +185,24 @@ fn c17_wq_rearm() {
         let required = REQUIRED.load(StdOrd::Relaxed);
         assert!(seen[1] >= required, "h1 woke again after its wakeup was handled, but id 1 was returned only {} time(s)", seen[1]);
         assert!(seen[1] <= 2, "id 1 returned {} times for 2 wakeup() calls", seen[1]);
-        assert_eq!(seen[2], 1, "id 2 returned {} times for 1 wakeup() call", seen[2]);
+        assert_eq!(seen[2], with_h2 as u32, "id 2 returned {} times for {} wakeup() call(s)", seen[2], with_h2 as u32);
         sup::note(format!("ep:seen1={},required={},parks={}", seen[1], required, parks.min(3)));
         a.join().unwrap();
-        b.join().unwrap();
+        if let Some(b) = b {
+            b.join().unwrap();
+        }
     });
+}
+
+/// one handle, one waking thread: small enough for one more preemption than the tier default
+/// (loom's preemption-bounded DPOR is not complete within its bound; the stuck-flag schedule of
+/// "flag set after queueing" needs bound 3 here)
+#[test]
+fn c17_wq_rearm() {
+    rearm("c17_wq_rearm", false, (3, 4));
+}
+
+#[test]
+fn c17_wq_rearm_two_handles() {
+    rearm("c17_wq_rearm_two_handles", true, (2, 3));
 }
